@@ -299,3 +299,66 @@ impl CacheHandler {
         out_result
     }
 }
+
+/// Verification hook: a cache that is not wired to the network, driven through the same
+/// key construction, lifetime calculation, insertion, lookup and expiry code as handle_query.
+/// Time is tokio's clock, so a paused runtime controls it.
+#[cfg(feature = "verif-hooks")]
+pub struct VerifCache {
+    handler: CacheHandler,
+    cache: Cache,
+}
+
+#[cfg(feature = "verif-hooks")]
+impl VerifCache {
+    #[allow(clippy::new_without_default)]
+    pub fn new() -> Self {
+        Self {
+            handler: CacheHandler {
+                next: outquery::OutQuery::new(),
+                cache: Arc::new(RwLock::new(Cache::new())),
+            },
+            cache: Cache::new(),
+        }
+    }
+
+    fn key(query: &dnspkt::DNSPkt) -> CacheKey {
+        CacheKey {
+            qname: query.question.qdomain.clone(),
+            qtype: query.question.qtype,
+            edns_do: query.edns_do,
+            cd: query.cd,
+        }
+    }
+
+    /// What handle_query does after a miss: returns true if the reply was stored.
+    pub fn store(&mut self, query: &dnspkt::DNSPkt, reply: &dnspkt::DNSPkt) -> bool {
+        let out_result = Ok(reply.clone());
+        let expiry = self.handler.calculate_expiry(&out_result);
+        if expiry > Duration::from_secs(0) {
+            self.handler
+                .insert_cache_entry(&mut self.cache, Self::key(query), &out_result, expiry);
+            true
+        } else {
+            false
+        }
+    }
+
+    /// What handle_query does first: Some(reply) if served from the cache.
+    pub fn lookup(&self, query: &dnspkt::DNSPkt) -> Option<Result<dnspkt::DNSPkt, String>> {
+        CacheHandler::get_entry(&self.cache, &Self::key(query), Instant::now())
+            .map(|r| r.map_err(|e| e.to_string()))
+    }
+
+    pub fn expire(&mut self) {
+        CacheHandler::expire(&mut self.cache, Instant::now());
+    }
+
+    pub fn len(&self) -> usize {
+        self.cache.len()
+    }
+
+    pub fn is_empty(&self) -> bool {
+        self.cache.is_empty()
+    }
+}
